@@ -7,7 +7,7 @@ TRUSTED = ["zone tables: TZif data under /usr/share/zoneinfo, read by the harnes
            "virtual clock: time_machine in a subprocess started with TZ=<zone>"]
 ASSUMPTIONS = ["whole 16-byte records; day masks 0 or even 2..254 are judged by the oracle, masks 1, 255 and odd ones are compared "
                "with the model only; duplicate slot ids keep the first record",
-               "the display text is C13's subject: compared with the model here, not judged"]
+               "the display text is C13's subject and is not part of this check's view"]
 RULE = ("replies built by the Spec encoder holding 0..8 records with ids (including duplicates), all kinds of masks, start and end "
         "instants around the virtual now, 40 % of the nows within a day of a zone transition, in several zones; truncated and empty "
         "replies; create_schedule -> captured record -> listed back through the parser; non-trivial = distinct replies with at least "
@@ -57,9 +57,10 @@ def run_zone(out, stream, zone, cases):
     for t in lib.run_model([lib.req("schedules", zd, tr, c["now"], m) for c, m in zip(cases, msgs)]):
         mo.append(t if t == "raised" else "|".join(sorted([x for x in t.split("|") if x], key=lambda r: int(r.split(",")[0]))))
     ex = [oracle(zone, c["recs"]) if c.get("cut") is None else "-" for c in cases]
-    lib.differential(out, stream, cases, full, mo, ex, describe, nontrivial=lambda c: len(c["recs"]) > 0, sample=describe,
-                     classify=lambda c, i: zone + ("/raised" if i == "raised" else "/%d-schedules" % (i.count("|") + 1 if i else 0)),
-                     impl_spec=[strip_display(t) for t in full])
+    # the display text is C13's subject: dropped from the view on both sides
+    lib.differential(out, stream, cases, [strip_display(t) for t in full], [strip_display(t) for t in mo], ex, describe,
+                     nontrivial=lambda c: len(c["recs"]) > 0, sample=describe,
+                     classify=lambda c, i: zone + ("/raised" if i == "raised" else "/%d-schedules" % (i.count("|") + 1 if i else 0)))
 
 
 def run_readback(out, stream, zone, rnd, n):
